@@ -38,13 +38,27 @@ def record_suite():
     return d
 
 
+# tags of Sieve extensions the library does not implement (RFC 5233 subaddress, 5260 index, 5703 mime, 5435 notify,
+# 5229 modifiers, 6134 extlists, 5293 editheader, 6609 include): a parser that starts to accept one of them must also
+# gate it -- as long as the command table does not know them they are refused as tags the command does not take
+RFC_TAGS = [":user", ":detail", ":index", ":last", ":mime", ":anychild", ":type", ":subtype", ":contenttype", ":param",
+            ":importance", ":options", ":message", ":lower", ":upper", ":lowerfirst", ":upperfirst", ":quotewildcard",
+            ":length", ":list", ":once", ":optional", ":personal", ":global", ":fcc", ":specialuse", ":handle2"]
+
+
 def mutants(tokens, rng, k):
     out = []
     n = len(tokens)
     for _ in range(k):
         i = rng.randrange(n)
-        kind = rng.choice(["del", "dup", "swap", "repl", "ins"])
+        kind = rng.choice(["del", "dup", "swap", "repl", "ins", "rfctag"])
         t = list(tokens)
+        if kind == "rfctag":
+            ids = [j for j, x in enumerate(t) if x[0] == "id"]
+            j = rng.choice(ids) if ids else i
+            t.insert(j + 1, ("tag", rng.choice(RFC_TAGS)))
+            out.append(t)
+            continue
         if kind == "del":
             del t[i]
         elif kind == "dup":
@@ -66,8 +80,15 @@ def byte_mutants(data, rng, k):
                b"\r", b"\n", b":", b"{", b"(", b"[", b".", b"\x0b", b"\xe2\x98\x83"]
     for _ in range(k):
         b = bytearray(data)
-        kind = rng.choice(["flip", "ins", "del", "trunc", "ins2", "unterminated"])
+        kind = rng.choice(["flip", "ins", "del", "trunc", "ins2", "unterminated", "lead"])
         i = rng.randrange(len(b) + 1)
+        if kind == "lead":
+            # octets that editors and transports put in front of a file: no Sieve token starts with them
+            lead = rng.choice([b"\xef\xbb\xbf", b"\xff\xfe", b"\xfe\xff", b"\x00", b"\x1a", b"\xef\xbb\xbf\xef\xbb\xbf"])
+            out.append(lead + data)
+            # ... also in front of a script that is invalid further on: the first invalid token is still the lead
+            out.append(lead + data[: max(1, len(data) * 2 // 3)] + b" }}} ")
+            continue
         if kind == "unterminated":
             # an opener at i whose closer never comes (long tail up to the end of input)
             op = rng.choice([b'"', b'"', b"/*", b"text:\n", b"text:\r\n"])
@@ -178,6 +199,11 @@ def deep_and_long(rng, tier):
             # the same, one closer short / one too many: rejected
             out.append(("if true {" + eol) * d + "keep;" + eol + ("}" + eol) * (d - 1))
             out.append("if " + "anyof (" * d + "true" + ")" * (d + 1) + " { stop; }" + eol)
+    for n in ([257, 258, 300, 1000] if tier == "quick" else [2, 16, 255, 256, 257, 258, 259, 300, 1000, 5000]):
+        out.append("if anyof (" + ", ".join(["true", "false", 'exists "a"'][k % 3] for k in range(n)) + ") { stop; }\n")
+        out.append("if allof (not anyof (" + ", ".join("true" for k in range(n)) + "), false) { keep; }\n")
+        out.append("redirect [" + ", ".join('"a%d"' % (k % 7) for k in range(n)) + "];\n")      # a list where a single string is wanted: rejected
+        out.append('if header :is [' + ", ".join('"h%d"' % k for k in range(n)) + '] [' + ", ".join('"v"' for k in range(n)) + "] { discard; }\n")
     sizes = [10, 19, 20, 21, 100, 1000, 4300, 4301, 5000, 20000] if tier == "quick" else \
         [9, 10, 18, 19, 20, 21, 63, 64, 65, 100, 255, 256, 1000, 4095, 4096, 4300, 4301, 5000, 20000, 70000]
     for n in sizes:
@@ -281,8 +307,31 @@ def driver(prop, tier, seed, devs):
                         batch.append(R.render(carrier, lay)[0])
     if prop in ("C01", "C03", "C04", "C18"):
         batch.extend(ml_shapes(rng, 150 if tier == "quick" else 4000))
-    if prop in ("C01", "C02", "C03", "C18"):
+    if prop in ("C01", "C02", "C03", "C04", "C18"):
         batch.extend(deep_and_long(rng, tier))
+    if prop == "C02":
+        # far below the interpreter's recursion limit nothing distinguishes iteration from recursion: nesting of
+        # 1 000 and 3 000 levels (only totality is judged on these: the harness's own tree projection is recursive)
+        # (judged for totality alone, without a reference verdict: TLC's stack copies are quadratic in the depth)
+        from . import sieve_impl as I
+        import re as _re
+        pt = I.new_parser()
+        for d in (1000, 3000):
+            for txt in ("if " + "not " * d + "true { stop; }\n", "if " + "not " * d + "{ stop; }\n",
+                        "if true {\n" * d + "keep;\n" + "}\n" * d, "if " + "anyof (" * d + "true" + ")" * d + " { stop; }\n"):
+                data = txt.encode()
+                o = I.run_parse(pt, data)
+                out["parses"] += 1
+                bad = None
+                if o["cls"] != "ret":
+                    bad = "outcome %s %s" % (o["cls"], o.get("exc", ""))
+                elif o["verdict"] is False and not (_re.match(r"line \d+: .", o["error"] or "") and isinstance(o["error_pos"], tuple)):
+                    bad = "error %r / error_pos %r" % (o["error"], o["error_pos"])
+                elif o["verdict"] not in (True, False):
+                    bad = "verdict %r" % (o["verdict"],)
+                if bad:
+                    out["viols"].append(("deep", {"text": txt[:60] + " ... (%d levels)" % d, "expl": None, "ref": [],
+                                                  "failed": {"C02": bad}, "obs": {}}))
     if prop in ("C01", "C07", "C03"):
         # the same valid scripts with their `require` written in other legal ways: several commands, single strings,
         # duplicates before new names, other order
